@@ -10,9 +10,11 @@ var _ *wasm.Module
 // after: region [b, ...) starts at or after the end of region [pb, pb+ps) - when both are present.
 func after(b, pb, ps Offset) bool { return b < 0 || pb < 0 || pb+ps <= b }
 
-func nFuncs(m *wasm.Module) Offset   { return Offset(m.ImportFunctionCount) * FunctionInstanceSize }
-func nGlobals(m *wasm.Module) Offset { return Offset(int(m.ImportGlobalCount)+len(m.GlobalSection)) * 16 }
-func nTables(m *wasm.Module) Offset  { return Offset(len(m.TableSection)+int(m.ImportTableCount)) * 8 }
+func nFuncs(m *wasm.Module) Offset { return Offset(m.ImportFunctionCount) * FunctionInstanceSize }
+func nGlobals(m *wasm.Module) Offset {
+	return Offset(int(m.ImportGlobalCount)+len(m.GlobalSection)) * 16
+}
+func nTables(m *wasm.Module) Offset { return Offset(len(m.TableSection)+int(m.ImportTableCount)) * 8 }
 
 // layoutOK: the module context of an instance is a sequence of non-overlapping regions, in this order:
 // module instance pointer, local memory, imported memory, imported functions, globals, type ids,
